@@ -471,15 +471,17 @@ class ODE:
         tuple[atoms.Assignment, ...]
             The sorted assignments
         """
-        intermediates = self.intermediates
-        if remove_unused:
-            deps = self.dependents()
-            intermediates = tuple([a for a in intermediates if a.name in deps])
-
         names = sort_assignments(
-            assignments=intermediates + self.state_derivatives,
+            assignments=self.intermediates + self.state_derivatives,
             assignments_only=assignments_only,
         )
+        if remove_unused:
+            # Filter the unused intermediates out of the order obtained for the full graph.
+            # Sorting a smaller graph may order the state derivatives differently from
+            # sorted_states(), which decides the slot of each state.
+            deps = self.dependents()
+            unused = {a.name for a in self.intermediates if a.name not in deps}
+            names = tuple([name for name in names if name not in unused])
         return tuple([cast(atoms.Assignment, self[name]) for name in names])
 
     def sorted_state_derivatives(self) -> tuple[atoms.StateDerivative, ...]:
